@@ -31,6 +31,7 @@ import (
 	"slices"
 	"strings"
 	"testing"
+	"testing/synctest"
 	"unicode/utf8"
 
 	"pgregory.net/rapid"
@@ -52,6 +53,13 @@ type c14lCase struct {
 	Parallel  int      `json:"parallel"`
 	PromptLen int      `json:"prompt_len"`
 	Keep      int      `json:"keep"`
+
+	// slow client: Body filler characters are generated in front of the text (hundreds of cheap
+	// pieces) and the client stops reading after StallAfter chunks until the runner has nothing left
+	// it can do (blocked on the full response buffer, or done); then it reads everything that is sent.
+	Slow       bool `json:"slow,omitempty"`
+	Body       int  `json:"body,omitempty"`
+	StallAfter int  `json:"stall_after,omitempty"`
 }
 
 type c14lInfo struct {
@@ -61,16 +69,6 @@ type c14lInfo struct {
 }
 
 const c14lHardCap = 96
-
-func c14lNearest(v int, allowed []int) int {
-	best := allowed[0]
-	for _, a := range allowed {
-		if v >= a {
-			best = a
-		}
-	}
-	return best
-}
 
 func c14lContainsAny(s string, stops []string) (string, bool) {
 	for _, st := range stops {
@@ -126,7 +124,7 @@ func c14lEndsWithStopPrefix(s string, stops []string) bool {
 	return false
 }
 
-func c14lRun(c c14lCase) (info c14lInfo, err error) {
+func c14lRun(t *testing.T, c c14lCase) (info c14lInfo, err error) {
 	cls := map[string]bool{}
 	defer func() {
 		for k := range cls {
@@ -134,9 +132,13 @@ func c14lRun(c c14lCase) (info c14lInfo, err error) {
 		}
 		slices.Sort(info.classes)
 		info.nontrivial = cls["llr_stop_spans_pieces"] || cls["llr_multibyte_split"]
+		if err != nil && len(err.Error()) > 1400 { // long generations: keep both ends of the message
+			m := err.Error()
+			err = fmt.Errorf("%s … [%d bytes] … %s", m[:700], len(m)-1200, m[len(m)-500:])
+		}
 	}()
 	// ---- normalise (a shrunk or hand-written case may hold anything)
-	cfg := llrConfig{NumCtx: c14lNearest(c.NumCtx, []int{6, 8, 16, 64, 512}), Batch: c14lNearest(c.Batch, []int{1, 2, 8, 64}), Parallel: c14lNearest(c.Parallel, []int{1, 2})}
+	cfg := llrConfig{NumCtx: llrNearest(c.NumCtx, []int{6, 8, 16, 64, 512}), Batch: llrNearest(c.Batch, []int{1, 2, 8, 32}), Parallel: llrNearest(c.Parallel, []int{1, 2})}
 	c.PromptLen = min(max(c.PromptLen, 1), 6)
 	c.Keep = min(max(c.Keep, -1), 8)
 	if !utf8.ValidString(c.Text) || strings.ContainsAny(c.Text, "xyz\x00P") || len(c.Text) > 80 {
@@ -149,19 +151,29 @@ func c14lRun(c c14lCase) (info c14lInfo, err error) {
 	}
 	stops := c.Stops
 	var grammar string
+	hardCap, pre := c14lHardCap, ""
+	if c.Slow {
+		if c.Mode == "free" {
+			c.Mode = "exact"
+		}
+		c.Body = min(max(c.Body, 0), 420)
+		c.StallAfter = max(c.StallAfter, 0)
+		hardCap += c.Body
+		pre = fmt.Sprintf("[xyz]{%d} ", c.Body)
+	}
 	switch c.Mode {
 	case "exact":
-		grammar = "root ::= " + llrGrammarLiteral(c.Text)
+		grammar = "root ::= " + pre + llrGrammarLiteral(c.Text)
 	case "tail":
-		grammar = "root ::= " + llrGrammarLiteral(c.Text) + " tail\ntail ::= [xyz] tail"
+		grammar = "root ::= " + pre + llrGrammarLiteral(c.Text) + " tail\ntail ::= [xyz] tail"
 	case "free":
 	default:
 		return info, fmt.Errorf("harness: mode %q", c.Mode)
 	}
 	if c.Mode != "exact" {
-		c.Predict = min(max(c.Predict, 1), 48)
+		c.Predict = min(max(c.Predict, 1), hardCap/2)
 	}
-	c.Predict = min(c.Predict, 90)
+	c.Predict = min(c.Predict, hardCap-6)
 	unlimited := c.Predict <= 0
 	opts := api.Options{NumPredict: c.Predict, NumKeep: c.Keep, Stop: stops, Seed: c.Seed & 0x7fffffff,
 		Temperature: 1, TopK: 0, TopP: 1, MinP: 0, TypicalP: 1, RepeatPenalty: 1, RepeatLastN: 0}
@@ -177,7 +189,7 @@ func c14lRun(c c14lCase) (info c14lInfo, err error) {
 		return info, fmt.Errorf("harness: %v", err)
 	}
 	// ---- reference: what the model generates for this request when nobody cuts it
-	g, err := e.llrReference(spec, req, c.Predict, c14lHardCap)
+	g, err := e.llrReference(spec, req, c.Predict, hardCap)
 	if err != nil {
 		return info, err
 	}
@@ -188,7 +200,7 @@ func c14lRun(c c14lCase) (info c14lInfo, err error) {
 	full := strings.Join(pieces, "")
 	_, valid := c14lSplitIncomplete(full)
 	valid = valid && !strings.Contains(full, "\uFFFD")
-	if c.Mode == "exact" && (!g.eog && unlimited || !strings.HasPrefix(c.Text, full) || g.eog && full != c.Text) {
+	if body := strings.TrimLeft(full, "xyz"); c.Mode == "exact" && (!g.eog && unlimited || !strings.HasPrefix(c.Text, body) || g.eog && (body != c.Text || len(full)-len(body) != c.Body)) {
 		return info, fmt.Errorf("harness: grammar %q, reference generated %q eog %v", grammar, pieces, g.eog)
 	}
 	hasEmptyStop := slices.Contains(stops, "")
@@ -280,22 +292,46 @@ func c14lRun(c c14lCase) (info c14lInfo, err error) {
 	}
 
 	// ---- the runner
-	ls, err := e.server(spec, cfg)
-	if err != nil {
-		return info, fmt.Errorf("harness: %v", err)
+	var lines []llrLine
+	var status int
+	var slots [][]int
+	serve := func(slow *llrSlow) {
+		var ls *llrServer
+		if ls, err = e.server(spec, cfg); err != nil {
+			err = fmt.Errorf("harness: %v", err)
+			return
+		}
+		lines, status, err = ls.complete(req, slow)
+		var err2 error
+		if slots, err2 = ls.stop(); err == nil {
+			err = err2
+		}
 	}
-	lines, status, err := ls.complete(req)
+	if c.Slow {
+		cls["llr_slow_client"] = true
+		slow := &llrSlow{stallAfter: c.StallAfter}
+		synctest.Test(t, func(*testing.T) { serve(slow) })
+		if slow.blocked {
+			cls["llr_slow_client_runner_blocked_on_full_buffer"] = true
+		} else if err == nil && len(lines) > c.StallAfter {
+			cls["llr_slow_client_generation_ended_during_stall"] = true
+		}
+	} else {
+		serve(nil)
+	}
 	if err != nil {
 		return info, err
 	}
-	slots, err := ls.stop()
-	if err != nil {
-		return info, err
-	}
-	info.summary = fmt.Sprintf("%d pieces %q, eog %v, %d stops, predict %d -> %d lines", k, pieces, g.eog, len(stops), c.Predict, len(lines))
+	info.summary = fmt.Sprintf("%d pieces, eog %v, %d stops, predict %d -> %d lines", k, g.eog, len(stops), c.Predict, len(lines))
 
 	// ---- oracle
 	what := fmt.Sprintf("pieces %q, stops %q, num_predict %d, eos %v", pieces, stops, c.Predict, g.eog)
+	if k > 30 {
+		what = fmt.Sprintf("%d pieces (%q ... %q), stops %q, num_predict %d, eos %v", k, pieces[:4], pieces[k-12:], stops, c.Predict, g.eog)
+	}
+	if c.Slow {
+		what += fmt.Sprintf(", client stalls after %d chunks until the runner cannot go on, then reads everything", c.StallAfter)
+	}
 	if status != 200 {
 		return info, fmt.Errorf("%s: HTTP status %d", what, status)
 	}
@@ -330,8 +366,8 @@ func c14lRun(c c14lCase) (info c14lInfo, err error) {
 	}
 	gotReason := llm.DoneReason(final.DoneReason).String()
 
-	if hasEmptyStop && k > 0 {
-		// "" occurs in any text: generation ends with the first token and nothing is returned
+	if hasEmptyStop {
+		// "" occurs in any text: generation ends with the first token (a piece or EOS) and nothing is returned
 		cls["llr_empty_stop_string"] = true
 		if out != "" || gotReason != "stop" || final.EvalCount != 1 {
 			return info, fmt.Errorf("%s: output %q, done_reason %q, eval_count %d; with an empty stop string: \"\", stop, 1", what, out, gotReason, final.EvalCount)
@@ -454,6 +490,7 @@ func c14lGen(t *rapid.T) c14lCase {
 	c.Text = strings.Join(atoms, "")
 	c.Mode = rapid.SampledFrom([]string{"exact", "tail", "exact", "tail", "exact", "free", "exact", "tail"}).Draw(t, "mode")
 	runes := []rune(c.Text)
+	c.Slow = rapid.IntRange(0, 23).Draw(t, "slow_client") == 17
 	ns := rapid.SampledFrom([]int{0, 1, 1, 2, 2, 3}).Draw(t, "stops")
 	for i := 0; i < ns; i++ {
 		var st string
@@ -474,21 +511,33 @@ func c14lGen(t *rapid.T) c14lCase {
 			a := rapid.IntRange(0, len(runes)-1).Draw(t, "stop_from")
 			l := rapid.IntRange(1, min(3, len(runes)-a)).Draw(t, "stop_len")
 			st = string(runes[a:a+l]) + rapid.SampledFrom([]string{"x", "y", "a", "日", "é", "xy", "\n"}).Draw(t, "stop_tail")
-		case kind == 5: // in the filler tail
+		case kind == 5 && !c.Slow: // in the filler tail
 			st = rapid.SampledFrom([]string{"x", "xy", "yz", "zzx", "xyz", "yy"}).Draw(t, "stop_fill")
 		default: // probably not in the text, but sharing prefixes with it
 			st = strings.Join(rapid.SliceOfN(rapid.SampledFrom(c14lAtoms), 1, 3).Draw(t, "stop_atoms"), "")
 		}
-		if rapid.IntRange(0, 39).Draw(t, "empty_stop") == 0 {
+		if rapid.IntRange(0, 39).Draw(t, "empty_stop") == 23 {
 			st = ""
 		}
 		c.Stops = append(c.Stops, st)
 	}
 	c.Predict = rapid.OneOf(rapid.SampledFrom([]int{-1, -1, 0}), rapid.IntRange(1, 2*len(atoms)+4), rapid.IntRange(1, len(atoms)+2)).Draw(t, "predict")
+	if c.Slow {
+		// a long, cheap generation in front of the text, and a client that falls behind
+		if c.Mode == "free" {
+			c.Mode = "exact"
+		}
+		c.Body = rapid.IntRange(310, 420).Draw(t, "body") // at most 3 characters per token: more than 100 chunks
+		c.StallAfter = rapid.OneOf(rapid.Just(0), rapid.IntRange(0, 40), rapid.IntRange(0, c.Body)).Draw(t, "stall_after")
+		if c.Predict > 0 {
+			// the filler takes Body/3 .. Body tokens (about Body/1.5): limits inside it, around its end and beyond
+			c.Predict += rapid.IntRange(c.Body/3, c.Body).Draw(t, "predict_body")
+		}
+	}
 	c.Seed = rapid.IntRange(0, 1<<31-1).Draw(t, "seed")
 	c.Defaults = rapid.IntRange(0, 3).Draw(t, "default_sampling") == 0
 	c.NumCtx = rapid.SampledFrom([]int{6, 8, 16, 64, 512}).Draw(t, "num_ctx")
-	c.Batch = rapid.SampledFrom([]int{1, 2, 8, 64}).Draw(t, "batch")
+	c.Batch = rapid.SampledFrom([]int{1, 2, 8, 32}).Draw(t, "batch")
 	c.Parallel = rapid.SampledFrom([]int{1, 1, 2}).Draw(t, "parallel")
 	c.PromptLen = rapid.IntRange(1, 4).Draw(t, "prompt_len")
 	c.Keep = rapid.IntRange(-1, 4).Draw(t, "keep")
@@ -507,7 +556,7 @@ func TestC14LlamaRunner(t *testing.T) {
 			t.Fatalf("replay: %v", err)
 		}
 		rec.Current(target, rc)
-		info, err := c14lRun(rc)
+		info, err := c14lRun(t, rc)
 		t.Logf("replay: %s %v", info.summary, info.classes)
 		if err != nil {
 			rec.Fail(target, rc, err.Error())
@@ -521,7 +570,7 @@ func TestC14LlamaRunner(t *testing.T) {
 		}
 		c := c14lGen(rt)
 		rec.Current(target, c) // llama.cpp aborts the process on an internal assertion
-		info, err := c14lRun(c)
+		info, err := c14lRun(t, c)
 		rec.Case(c, info.nontrivial, info.classes...)
 		if err != nil {
 			rec.Fail(target, c, err.Error())
